@@ -135,7 +135,6 @@ def run(rep: core.Report):
     _r19d(rep)
     _r19e(rep)
     _r19h(rep)
-    _r19j(rep)
     from rules import shared_bcast
 
     shared_bcast.run(rep, "R19i", ["phonopy/phonon/thermal_displacement.py", "phonopy/phonon/random_displacements.py"])
@@ -320,18 +319,6 @@ def _r19h(rep):
     rep.instance("R19h", TD, f"{M}.run", "the CIF matrix of temperature i, atom j is stored at [i, j]", ok_ix, "the transformed matrices are not stored at the position of the Cartesian matrix they come from", line=run.lineno)
 
 
-
-def _r19j(rep):
-    """'Rebuilding force constants from the unmodified eigen-solutions returns the original ones' and the reported
-    correlation matrices go through DynmatToForceConstants: the inverse transform (compiled kernel and Python reference)
-    is decided by the rules of C06, which run here as well under the ids R19j.<original id>."""
-    from rules import c06
-
-    view = core.KernelView(rep, "R19j", only_compiled=False)
-    c06.run(view)
-    n = sum(1 for r in rep.rules if r.startswith("R19j."))
-    if n < 4:
-        raise AnalysisError(f"R19j: only {n} rules of the inverse transform produced instances")
 
 
 def _r19f(rep):
